@@ -27,6 +27,9 @@
 #include <cassert>
 #include <cinttypes>
 #include <cstring>
+#ifdef UTAP_VERIF
+#include <cstdlib>
+#endif
 
 #ifdef __MINGW32__
 #include <windows.h>
@@ -411,6 +414,13 @@ void StatementBuilder::dynamic_load_lib(const char* lib)
         return;
     }
     auto name = std::string(lib + 1, len - 2);  // strip the quote marks
+#ifdef UTAP_VERIF
+    // verification hook: never dlopen attacker-chosen paths while fuzzing
+    if (std::getenv("UTAP_VERIF_NO_DLOPEN") != nullptr) {
+        handle_error(TypeException{"library loading disabled"});
+        return;
+    }
+#endif
     auto errors = std::vector<std::string>{};   // buffer the errors
     auto success = false;
     for (const auto& dir : libpaths) {
